@@ -136,7 +136,7 @@ def sites_for(draw, arities, kwpool, host, allow_next=True, max_sites=2, own=Non
     out = []
     for _ in range(draw(st.sampled_from([0, 1, 1, 2, 2][: 2 * max_sites + 1]))):
         fn = draw(st.sampled_from(["recurse", "recurse", "call_next", "call_next"]
-                                  + (["next"] if (allow_next and host == "func") else [])))
+                                  + (["next"] if allow_next else [])))  # f.next(...) / self.f.next(...)
         if own is not None and draw(st.integers(0, 3)):
             # the method's own shape: a same-arguments delegation stays well-formed
             npos = len(own["pos"])
@@ -144,13 +144,13 @@ def sites_for(draw, arities, kwpool, host, allow_next=True, max_sites=2, own=Non
         else:
             npos = draw(st.sampled_from(sorted(arities)))
             kws = []
-            if fn != "next" and kwpool and draw(st.integers(0, 2)) == 0:
+            if kwpool and draw(st.integers(0, 2)) == 0:
                 kws = draw(st.lists(st.sampled_from(kwpool), min_size=1, max_size=2, unique=True))
         if fn == "recurse" and any(o["fn"] == "next" for o in out):
             fn = "call_next"
         if fn == "next" and any(o["fn"] == "recurse" for o in out):
             fn = "call_next"
-        site = {"fn": fn, "npos": npos, "kws": sorted(kws) if fn != "next" else []}
+        site = {"fn": fn, "npos": npos, "kws": sorted(kws)}
         if len(site["kws"]) >= 2 and draw(st.booleans()):
             site["kwrev"] = True  # the same keywords, written in the opposite order
         if fn != "next" and draw(st.integers(0, 5)) == 0:
